@@ -21,6 +21,12 @@
  *                       and SIM_FS_MAP may redirect it to a driver-written file or make it
  *                       absent (file-system seam; /dev/urandom and friends are redirected to
  *                       seeded bytes so that a direct read cannot bypass getrandom)
+ *   (simulated disk)    with SIM_DISK_DIR set, everything an expansion *writes* (open for
+ *                       writing, fopen "w"/"a", mkdir, rename, unlink) lands in that
+ *                       directory under a flattened name, and later reads of the same path
+ *                       -- by this or by a later host given the same directory -- see it:
+ *                       durable state that survives a process, which the driver keeps
+ *                       ("warm") or wipes ("cold") per host
  *   gethostname / uname / getuid / geteuid / sched_getaffinity / sysconf(_SC_NPROCESSORS_*)
  *                    -> SIM_HOSTNAME / SIM_UID / SIM_NCPU; calls during expansions recorded
  *
@@ -71,7 +77,8 @@ static int g_in_expansion;
 /* counters: [0]=getrandom calls [1]=getrandom calls in expansion [2]=bytes
  *           [3]=clock reads      [4]=clock reads in expansion
  *           [5]=getenv calls     [6]=getenv calls in expansion
- *           [7]=getpid calls     [8]=getpid calls in expansion */
+ *           [7]=getpid calls     [8]=getpid calls in expansion
+ *           [9]=writes to the simulated disk during expansions */
 static uint64_t g_cnt[16];
 
 #define NAMES_CAP 2048
@@ -86,6 +93,7 @@ static uint64_t g_fs_cnt;          /* fs + identity calls made during expansions
 static struct { char kind; const char *key; const char *target; } g_fs_map[FS_MAP_CAP];
 static int g_fs_map_n;
 static const char *g_hostname;
+static const char *g_disk_dir;    /* simulated disk: where expansions' writes land */
 static int g_have_uid, g_have_ncpu;
 static long g_uid, g_ncpu;
 
@@ -113,6 +121,7 @@ static void init(void) {
     }
     if ((s = raw_getenv("SIM_PID"))) { g_have_pid = 1; g_pid = strtol(s, NULL, 10); }
     g_hostname = raw_getenv("SIM_HOSTNAME");
+    g_disk_dir = raw_getenv("SIM_DISK_DIR");
     if ((s = raw_getenv("SIM_UID"))) { g_have_uid = 1; g_uid = strtol(s, NULL, 10); }
     if ((s = raw_getenv("SIM_NCPU"))) { g_have_ncpu = 1; g_ncpu = strtol(s, NULL, 10); if (g_ncpu < 1) g_ncpu = 1; }
     /* SIM_FS_MAP: lines "<kind>\t<key>\t<target>"; kind R = redirect to target, N = absent.
@@ -267,10 +276,33 @@ char *secure_getenv(const char *name) {
 #ifndef SIM_MINIMAL
 /* ---- file-system seam ---- */
 
+/* simulated disk: <SIM_DISK_DIR>/<path with '/' -> '%'> */
+static __thread char g_disk_buf[2][1200];
+static const char *disk_path(const char *path, int slot) {
+    if (!g_disk_dir || !path) return NULL;
+    size_t dl = strlen(g_disk_dir), pl = strlen(path);
+    if (dl + pl + 2 >= sizeof g_disk_buf[0]) return NULL;
+    char *b = g_disk_buf[slot];
+    memcpy(b, g_disk_dir, dl);
+    b[dl] = '/';
+    for (size_t i = 0; i < pl; i++) b[dl + 1 + i] = path[i] == '/' ? '%' : path[i];
+    b[dl + 1 + pl] = 0;
+    return b;
+}
+static int disk_has(const char *p) {
+    struct stat st;
+    return p && syscall(SYS_newfstatat, AT_FDCWD, p, &st, 0) == 0;
+}
+
 /* 0 = untouched, 1 = redirected (*out set), -1 = absent */
 static int fs_lookup(const char *path, const char **out) {
     if (!path || !g_in_expansion) return 0;
     note_fs(path);
+    {
+        /* something an earlier expansion (possibly of an earlier host) wrote */
+        const char *d = disk_path(path, 0);
+        if (disk_has(d)) { *out = d; return 1; }
+    }
     size_t pl = strlen(path);
     for (int i = 0; i < g_fs_map_n; i++) {
         const char *k = g_fs_map[i].key;
@@ -289,6 +321,13 @@ static int fs_lookup(const char *path, const char **out) {
 static int open_common(const char *fn, int dirfd, const char *path, int flags, mode_t mode) {
     init();
     const char *t = path;
+    if (g_in_expansion && g_disk_dir && path && (flags & (O_WRONLY | O_RDWR | O_CREAT | O_TRUNC | O_APPEND))) {
+        /* a write: goes to the simulated disk */
+        note_fs(path);
+        g_cnt[9]++;
+        const char *d = disk_path(path, 0);
+        if (d) return (int)syscall(SYS_openat, AT_FDCWD, d, flags, mode ? mode : 0644);
+    }
     int r = fs_lookup(path, &t);
     if (r < 0) { errno = ENOENT; return -1; }
     (void)fn;
@@ -319,6 +358,13 @@ int openat64(int dirfd, const char *path, int flags, ...) {
 FILE *fopen(const char *path, const char *m) {
     init();
     const char *t = path;
+    if (g_in_expansion && g_disk_dir && path && m && (strchr(m, 'w') || strchr(m, 'a') || strchr(m, '+'))) {
+        note_fs(path);
+        g_cnt[9]++;
+        const char *d = disk_path(path, 0);
+        FILE *(*realw)(const char *, const char *) = REAL("fopen");
+        if (d && realw) return realw(d, m);
+    }
     int r = fs_lookup(path, &t);
     if (r < 0) { errno = ENOENT; return NULL; }
     FILE *(*real)(const char *, const char *) = REAL("fopen");
@@ -385,6 +431,35 @@ DIR *opendir(const char *path) {
     if (fs_lookup(path, &t) < 0) { errno = ENOENT; return NULL; }
     DIR *(*real)(const char *) = REAL("opendir");
     return real ? real(t) : NULL;
+}
+
+int mkdir(const char *path, mode_t mode) {
+    init();
+    if (g_in_expansion && g_disk_dir) { note_fs(path); g_cnt[9]++; return 0; } /* directories are implicit on the simulated disk */
+    return (int)syscall(SYS_mkdirat, AT_FDCWD, path, mode);
+}
+int mkdirat(int dirfd, const char *path, mode_t mode) {
+    init();
+    if (g_in_expansion && g_disk_dir) { note_fs(path); g_cnt[9]++; return 0; }
+    return (int)syscall(SYS_mkdirat, dirfd, path, mode);
+}
+int rename(const char *from, const char *to) {
+    init();
+    if (g_in_expansion && g_disk_dir) {
+        note_fs(from); note_fs(to); g_cnt[9]++;
+        const char *a = disk_path(from, 0), *b = disk_path(to, 1);
+        if (a && b && disk_has(a)) return (int)syscall(SYS_renameat, AT_FDCWD, a, AT_FDCWD, b);
+    }
+    return (int)syscall(SYS_renameat, AT_FDCWD, from, AT_FDCWD, to);
+}
+int unlink(const char *path) {
+    init();
+    if (g_in_expansion && g_disk_dir) {
+        note_fs(path); g_cnt[9]++;
+        const char *a = disk_path(path, 0);
+        if (disk_has(a)) return (int)syscall(SYS_unlinkat, AT_FDCWD, a, 0);
+    }
+    return (int)syscall(SYS_unlinkat, AT_FDCWD, path, 0);
 }
 
 /* ---- threads created by the system under test ----
@@ -507,9 +582,9 @@ void sim_mark(int on) { init(); g_in_expansion = on; }
 /* copies up to n counters; returns how many exist */
 int sim_counters(uint64_t *out, int n) {
     init();
-    int k = n < 9 ? n : 9;
+    int k = n < 10 ? n : 10;
     for (int i = 0; i < k; i++) out[i] = g_cnt[i];
-    return 9;
+    return 10;
 }
 
 const char *sim_env_names(void) { return g_names; }
